@@ -3,13 +3,24 @@ CONSTANTS
   Caps = {1}
   Classes = {}
   MaxSend = 0
-  Wall = {0, 1, 2, 3}
-  MaxPublish = 5
+  Wall = {0, 1}
+  MaxPublish = 4
+  Handles = {"p1", "p2"}
+  GCaps = {1}
+  SplitCommit = FALSE
   PendingWithoutWake = FALSE
+  SkipBudget = 0
+  BudgetSelfWake = FALSE
   ClockAsCoded = FALSE
+  FloodLens = {}
+  FloodCap = 1
   KeepHist = FALSE
   AtomicPolls = FALSE
 INVARIANTS
   C16_TimestampsStrictlyIncrease
   C16_PublishedDistinct
+  C16_PerHandleInOrder
+  C16_ClockIsLastDrawn
+PROPERTIES
+  C16_ClockNeverRegresses
 CHECK_DEADLOCK FALSE
